@@ -56,8 +56,36 @@ pub fn unit_f64cmp(o: &mut Out, tier: &str, r: &mut Rng) {
     }
 }
 
+/// notations for a number that are NOT Rust's f64 literal grammar - a lenient parser ("accept 5:30 as
+/// an offset", "accept 12,5", "accept 45N") is a change of the text route: the model rejects all of them
+fn other_notation(r: &mut Rng) -> String {
+    let h = r.pick(&[0i64, 1, 5, 11, 12, 13, 23, 45, 89, 90, 91, 179, 180, 181, 419, 420, 8848]);
+    let sign = r.pick(&["", "-", "+"]);
+    let m = r.pick(&[0i64, 1, 15, 30, 45, 59, 60]);
+    let frac = r.below(1000);
+    match r.below(16) {
+        0 => format!("{}{}:{:02}", sign, h, m),
+        1 => format!("{}{}:{:02}:{:02}", sign, h, m, r.pick(&[0i64, 30, 59])),
+        2 => format!("{}{}.{}:{:02}", sign, h - 1, 9, m),
+        3 => format!("{}{},{}", sign, h, frac),
+        4 => format!("{}{}°", sign, h),
+        5 => format!("{}{}°{}'", sign, h, m),
+        6 => format!("{}{}{}", h, if r.chance(0.5) { "" } else { " " }, r.pick(&["N", "S", "E", "W", "n", "e"])),
+        7 => format!("{}{}.{}{}", sign, h, frac, r.pick(&["N", "S", "E", "W", "h", "m", "deg", "d", "f", "f64"])),
+        8 => format!("{}{}h{:02}", sign, h, m),
+        9 => format!("{}{}/{}", sign, h, r.pick(&[1i64, 2, 4, 60])),
+        10 => format!("UTC{}{}", if sign.is_empty() { "+" } else { sign }, h),
+        11 => format!("GMT{}{}:{:02}", if sign.is_empty() { "+" } else { sign }, h, m),
+        12 => format!("{}{} {}", sign, h, m),
+        13 => format!("{}{}_{}", sign, h, frac),
+        14 => format!("{}0{}.{}", sign, h, frac), // leading zero: accepted by Rust, a control
+        _ => format!("({}{})", sign, h),
+    }
+}
+
 pub fn gen_number_string(r: &mut Rng) -> String {
-    match r.below(14) {
+    match r.below(16) {
+        14 | 15 => other_notation(r),
         12 | 13 => {
             // malformed text with multi-byte characters at every byte offset: pasted degree-minute-second
             // coordinates, other scripts, emoji; lengths 0..48 bytes
